@@ -305,7 +305,11 @@ func c11Worker(w *c11worker, pool dyn.Pool, t *dyn.TypeOps, cf c11cfg, r *core.R
 		var stamps []dyn.Val
 		for i := 0; i < nb; i++ {
 			t0 := time.Since(base).Nanoseconds()
-			b := pool.Get()
+			var b dyn.Buf
+			if p, msg := core.Guard(func() { b = pool.Get() }); p {
+				fail("panic", fmt.Sprintf("goroutine %d cycle %d: Get panicked: %s", w.g, cy, msg))
+				continue
+			}
 			t1 := time.Since(base).Nanoseconds()
 			w.gets++
 			w.pins = append(w.pins, b)
@@ -354,7 +358,9 @@ func c11Worker(w *c11worker, pool dyn.Pool, t *dyn.TypeOps, cf c11cfg, r *core.R
 			}
 			key := pb.RawBase()
 			t0 := time.Since(base).Nanoseconds()
-			pool.Put(pb)
+			if p, msg := core.Guard(func() { pool.Put(pb) }); p {
+				fail("panic", fmt.Sprintf("goroutine %d cycle %d: Put panicked: %s", w.g, cy, msg))
+			}
 			t1 := time.Since(base).Nanoseconds()
 			w.events = append(w.events, c11event{g: w.g, put: true, key: key, call: t0, ret: t1})
 		}
